@@ -454,3 +454,129 @@ func TestVerifScenario_C07_ConcurrentRemove(t *testing.T) {
 		}
 	}
 }
+
+// (demonstration of seeded change C19h, kept as a regression scenario: the change alters handleEvent's signature,
+// which leaves its contract stale and the function undecided)
+// An inner directory of a recursive watch is renamed twice while the consumer
+// is busy (it has not yet picked up an earlier event, so the reader is parked
+// in sendEvent). When the reader gets to the first IN_MOVED_TO the directory
+// already has its second name, so inotify_add_watch() on the first new name
+// answers ENOENT. That error is reported, but the directory and everything
+// below it must still end up being reported under the final name.
+func TestVerifScenario_C19_RenameTwiceBusyConsumer(t *testing.T) {
+	if !enableRecurse {
+		t.Skip("needs recursive watches")
+	}
+
+	tmp := t.TempDir()
+	root := filepath.Join(tmp, "root")
+	if err := os.MkdirAll(filepath.Join(root, "a", "deep"), 0o755); err != nil {
+		t.Fatal(err)
+	}
+
+	w, err := NewWatcher()
+	if err != nil {
+		t.Fatal(err)
+	}
+	defer w.Close()
+	if err := w.Add(filepath.Join(root, "...")); err != nil {
+		t.Fatal(err)
+	}
+
+	// Park the reader: nobody reads w.Events yet.
+	if err := os.WriteFile(filepath.Join(root, "f"), nil, 0o644); err != nil {
+		t.Fatal(err)
+	}
+	time.Sleep(200 * time.Millisecond)
+
+	if err := os.Rename(filepath.Join(root, "a"), filepath.Join(root, "b")); err != nil {
+		t.Fatal(err)
+	}
+	if err := os.Rename(filepath.Join(root, "b"), filepath.Join(root, "c")); err != nil {
+		t.Fatal(err)
+	}
+
+	// Now start consuming.
+	var (
+		mu     sync.Mutex
+		events []Event
+		errs   []error
+		done   = make(chan struct{})
+		fin    = make(chan struct{})
+	)
+	go func() {
+		defer close(fin)
+		for {
+			select {
+			case <-done:
+				return
+			case e, ok := <-w.Events:
+				if !ok {
+					return
+				}
+				mu.Lock()
+				events = append(events, e)
+				mu.Unlock()
+			case e, ok := <-w.Errors:
+				if !ok {
+					return
+				}
+				mu.Lock()
+				errs = append(errs, e)
+				mu.Unlock()
+			}
+		}
+	}()
+	time.Sleep(1500 * time.Millisecond)
+
+	mu.Lock()
+	events = nil
+	t.Logf("errors reported while catching up: %v", errs)
+	mu.Unlock()
+
+	// File operations at two depths below the renamed directory.
+	if err := os.WriteFile(filepath.Join(root, "c", "file1"), nil, 0o644); err != nil {
+		t.Fatal(err)
+	}
+	if err := os.WriteFile(filepath.Join(root, "c", "deep", "file2"), nil, 0o644); err != nil {
+		t.Fatal(err)
+	}
+	// wait (up to 5 s) until two Creates have arrived after the writes, then a little longer for stragglers
+	for i := 0; i < 50; i++ {
+		time.Sleep(100 * time.Millisecond)
+		mu.Lock()
+		n := 0
+		for _, e := range events {
+			if e.Has(Create) {
+				n++
+			}
+		}
+		mu.Unlock()
+		if n >= 2 {
+			break
+		}
+	}
+	time.Sleep(200 * time.Millisecond)
+	close(done)
+	<-fin
+
+	want := map[string]bool{
+		filepath.Join(root, "c", "file1"):         false,
+		filepath.Join(root, "c", "deep", "file2"): false,
+	}
+	for _, e := range events {
+		if !e.Has(Create) {
+			continue
+		}
+		if _, ok := want[e.Name]; ok {
+			want[e.Name] = true
+		} else {
+			t.Errorf("Create reported with a path that does not exist: %s", e)
+		}
+	}
+	for p, seen := range want {
+		if !seen {
+			t.Errorf("no Create reported for %s", p)
+		}
+	}
+}
